@@ -1,4 +1,5 @@
 import Spine.EventsLock
+import Spine.EventsConn
 import Spine.Generated.EventBus
 /-!
 # C15 — facts regenerated from spine/events.go on every run (tie b1)
@@ -42,5 +43,22 @@ theorem c15gen_snapshot_is_copy : Generated.EventBus.snapshotIsCopy = true := by
 theorem c15gen_core_sync_application_async_core_first :
     Generated.EventBus.coreSynchronous = true ∧ Generated.EventBus.applicationAsync = true ∧
     Generated.EventBus.coreLevelFirst = true := by decide
+
+/-- `Publish` blocks on nothing but `mu` and `muHandle`: every operation in it is on a white list (no WaitGroup or
+    Cond wait, no channel operation, no select, no function literal, no defer), and the bus has no state besides the
+    two mutexes and the handler list. This is why `Enabled` depends on `holder` only, and what
+    `c15_publish_never_waits_for_application_handlers` rests on. The member in which the dispatch waits for earlier
+    application handlers deadlocks (`Spine.Props.C15.wait_member_deadlock_witness`). -/
+theorem c15gen_publish_blocks_only_on_the_two_mutexes :
+    Generated.EventBus.publishBlocksOnlyOnTheTwoMutexes = true ∧ Generated.EventBus.stateIsTwoMutexesAndList = true := by
+  decide
+
+/-- The local device subscribes itself at core level on every `SetupRemoteDevice` (one unconditional statement),
+    unsubscribes exactly when the last peer is gone, and nothing else touches the core level: the transitions of
+    `Spine.Bus.Conn.step false`, on which `c15_internal_handler_while_connected` rests. The member that subscribes
+    only once fails after "connect, disconnect all, connect again" (`Spine.Props.C15.once_member_witness`). -/
+theorem c15gen_internal_handler_subscription_sites :
+    Generated.EventBus.coreSubscribedOnEverySetup = true ∧ Generated.EventBus.coreUnsubscribedOnlyWhenNoPeerLeft = true ∧
+    Generated.EventBus.coreLevelSitesAreThoseTwo = true := by decide
 
 end Spine.Props.C15Gen
